@@ -934,6 +934,29 @@ def _native_layouts(tier="quick", seed=0):
         if b and not bad:
             bad = "layout %s: %s" % (specs, b)
     record("C13.native.generated_layouts", bad, "%d random placeholder populations: mirror property holds" % N)
+    # "until overridden": on a fresh slide, override one dimension, then another, in every order; the overridden ones read the values given,
+    # the others still read what the layout placeholder (or the master's) reports
+    bad = None
+    from pptx.util import Emu as _Emu
+
+    dims = ("left", "top", "width", "height")
+    for li in (0, 1, 3, 8):
+        for a, b in itertools.permutations(dims, 2):
+            prs = Presentation()
+            layout = prs.slide_layouts[li]
+            sl = prs.slides.add_slide(layout)
+            for ph in list(sl.placeholders)[:2]:
+                evals += 1
+                inherited = {d: getattr(ph, d) for d in dims}
+                if any(ph._element.xpath("./p:spPr/a:xfrm")):
+                    continue
+                setattr(ph, a, _Emu(111111))
+                setattr(ph, b, _Emu(222222))
+                want = dict(inherited, **{a: 111111, b: 222222})
+                got = {d: getattr(ph, d) for d in dims}
+                if got != want:
+                    bad = bad or "layout %d placeholder idx %s: %s = 111111 then %s = 222222 gives %r, expected %r" % (li, ph.placeholder_format.idx, a, b, got, want)
+    record("C13.native.overriding_two_dimensions_keeps_the_others_inherited", bad, "every ordered pair of dimension overrides on fresh inheriting placeholders")
     # notes slide: the notes master's placeholders in every sampled z-order, and with a duplicated cloneable placeholder
     import copy
 
